@@ -105,7 +105,7 @@ def cases():
     for attr in sorted(dir(ops)):
         op = getattr(ops, attr)
         if not isinstance(op, Operator) or attr in ("rand", "ascending", "descending", "nulls_first", "nulls_last",
-                                                    "str_to_date", "str_to_datetime", "str_slice"):   # markers; data-dependent parsers (C17); D54
+                                                    "str_to_date", "str_to_datetime"):   # markers; data-dependent parsers (C17)
             continue
         for si, sig in enumerate(op.signatures):
             params = list(sig.types)
@@ -184,6 +184,12 @@ def cases():
             "no_default_float": lambda t: pdt.when(t.k > 2).then(t.f),
             "map_int_to_float": lambda t: t.k.map({1: 0.5, 2: 1.5}, default=t.i),
             "map_default_only": lambda t: t.k.map({100: 0.5}, default=t.i),
+            # expressions over constants only
+            "const_max_int": lambda t: pdt.max(1, 2), "const_min_int": lambda t: pdt.min(3, 2), "const_coalesce_int": lambda t: pdt.coalesce(None, 7),
+            "const_coalesce_str": lambda t: pdt.coalesce(None, "x"), "const_fill_null_str": lambda t: pdt.lit(None).fill_null("x"),
+            "const_max_float": lambda t: pdt.max(1.5, 2), "const_min_date": lambda t: pdt.min(dt.date(2020, 1, 1), dt.date(2021, 1, 1)),
+            "const_arith": lambda t: pdt.lit(1) + 2, "const_case": lambda t: pdt.when(pdt.lit(True)).then(1).otherwise(2),
+            "const_max_bool": lambda t: pdt.max(True, False), "typed_const_max": lambda t: pdt.max(pdt.lit(1, pdt.Int64()), pdt.lit(2, pdt.Int64())),
         }
         fam = []
         for name, f in shapes.items():
